@@ -525,3 +525,33 @@ func TearSweep(mp int) []Job {
 	}
 	return jobs
 }
+
+// IsolationScripts: frames for an id the receiver never opened are dropped — and must not
+// disturb the connections it has opened (the reader has to consume their payload).
+func IsolationScripts(mp int) []Job {
+	var jobs []Job
+	for dir := 0; dir < 2; dir++ {
+		for _, n := range []int{0, 1, 5, 300} {
+			g := newGen(rand.New(rand.NewSource(1)), mp, 4)
+			x, y := dir, 1-dir
+			hx := g.openConn(x, 5, "open")
+			hy := g.openConn(y, 5, "open")
+			hu := g.openConn(x, 9, "open") // never opened by y
+			g.write(x, hx, 3)
+			g.write(x, hu, n)
+			g.write(x, hx, 4)
+			g.write(x, hu, n+1)
+			g.sync(x)
+			g.read(y, hy, 64, 64)
+			g.read(y, hy, 64, 64)
+			g.write(y, hy, 2)
+			g.sync(y)
+			g.read(x, hx, 64, 64)
+			g.closeMux(x)
+			g.sync(x)
+			g.aftermath(1)
+			jobs = append(jobs, Job{fmt.Sprintf("unopened-d%d-n%d", dir, n), g.script("unopened-id", true)})
+		}
+	}
+	return jobs
+}
